@@ -85,6 +85,10 @@ def gen_case(rng, tier):
     )
     g = gen.Gen(rng, cfg)
     state = g.tree()
+    if rng.random() < 0.07:
+        # equal-but-distinct operands: the same program over leaves with the same name, columns and
+        # engine (relation equality ignores payloads; locked nodes are identified by identity)
+        state = gen.chain_with_name_twin(g, state, rng) or state
     # make sure there is at least one transfer near the root most of the time
     if rng.random() < 0.7:
         new = g.unary(state, "xfer")
